@@ -1,14 +1,25 @@
 """./check setup — build the framework from files on disk only (offline)."""
-import glob, os, subprocess, sys
+import glob, os, re, subprocess, sys
 sys.path.insert(0, os.path.join(os.path.dirname(os.path.abspath(__file__)), "lib"))
 import vlib
+
+
+def members():
+    s = open(os.path.join(vlib.HARNESS, "Cargo.toml")).read()
+    m = re.search(r"members\s*=\s*\[(.*?)\]", s, re.S)
+    names = ["vh"]
+    if m:
+        for d in re.findall(r'"([^"]+)"', m.group(1)):
+            t = open(os.path.join(vlib.HARNESS, d, "Cargo.toml")).read()
+            names.append(re.search(r'name\s*=\s*"([^"]+)"', t).group(1))
+    return names
 
 
 def main():
     os.makedirs(vlib.WORK, exist_ok=True)
     os.makedirs(vlib.EVID, exist_ok=True)
     try:
-        vlib.build_harness()
+        vlib.build_harness(members())
     except vlib.ToolError as e:
         print("TOOL-ERROR:", e)
         return 2
